@@ -372,9 +372,7 @@ def r3_2(ctx):
   ctx.check(all("on" in (f.before.get(vm.enclosing_stmt(c)) or ()) for c in runs),
             "VirtualMachine.run_program:filter-dominates-run_bytecode", VM, runs[0].lineno,
             "run_bytecode is reachable before the director's filter is installed", {"runs": len(runs)})
-  if "on" not in (f.before.get(dirs[0]) or ()):
-    ctx.note("errors logged while Director(...) is constructed (invalid-directive, late-directive, "
-             "ignored-type-comment) reach ErrorLog._add with _filter None: no directive can silence them")
+  ctx._cache["c03.director_before_filter"] = "on" not in (f.before.get(dirs[0]) or ())
   if ctx.tier == "thorough":   # who-may-write over the whole package
     foreign, setters, n = [], [], 0
     for rel in all_py_files(ctx):
@@ -685,6 +683,48 @@ def r3_6(ctx):
               f"Director._process_pytype:{cmd}", DIR, table[cmd].lineno if cmd in table else fn.lineno,
               f"command {cmd!r} runs {[src(c) for c in calls]}; expected one "
               f"_process_disable(line, line_range, open_ended, <names>, disable={flag})", {"args": b})
+
+
+@rule("R3.8", "C03", floor=1)
+def r3_8(ctx):
+  """No error may be logged before the director's filter is installed.
+
+  The filter (director.filter_error) can only exist once the Director has been
+  built, so every error the Director logs while it is being constructed
+  reaches ErrorLog._add with no filter: neither a trailing nor a stand-alone
+  directive (nor --disable) can silence it.
+  """
+  vm = get_module(ctx, VM)
+  run = vm.func("VirtualMachine.run_program")
+  dirs = [n for n in walk_no_nested(run) if isinstance(n, ast.Assign) and isinstance(n.value, ast.Call)
+          and dotted(n.value.func) == "directors.Director"]
+  if len(dirs) != 1:
+    raise AnalysisError("run_program: directors.Director(...) construction not found")
+  filt = [c for c in calls_in(run, suffix="set_error_filter")]
+  if len(filt) != 1:
+    raise AnalysisError("run_program: set_error_filter call not found")
+  f = flow.flow(run, gen=lambda u: {"on"} if any(c is filt[0] for c in flow.unconditional_calls(u)) else ())
+  before = "on" not in (f.before.get(dirs[0]) or ())
+  dm = get_module(ctx, DIR)
+  ms = dm.methods("Director")
+  seen, todo, logged = set(), ["__init__"], {}
+  while todo:
+    m = todo.pop()
+    if m in seen or m not in ms:
+      continue
+    seen.add(m)
+    for c in calls_in(ms[m]):
+      d = dotted(c.func) or ""
+      if d.startswith("self._errorlog."):
+        logged.setdefault(d.split(".")[-1], m)
+      elif d.startswith("self.") and d.count(".") == 1:
+        todo.append(d.split(".")[1])
+  ctx.check(not (before and logged), "Director.__init__:logs-before-filter", DIR,
+            ms["__init__"].lineno,
+            f"errors {sorted(logged)} are logged while the Director is being "
+            "built, before run_program installs director.filter_error: a "
+            "disable directive cannot silence them",
+            {"logged_by": logged, "director_built_before_filter": before})
 
 
 def _v(name, rid, file, old, new, expect="fire"):
